@@ -14,8 +14,9 @@ from props import c15
 THEOREMS = ['Libvna.LU.' + t for t in ('sum_split3', 'lu_of_recurrence', 'forward_subst', 'back_subst', 'solve_correct', 'det_of_lu',
                                       'zero_pivot_singular', 'nonzero_pivots_nonsingular')] + \
     ['Libvna.LULoop.' + t for t in ('get_set', 'dotSub_eq', 'upper_spec', 'lower_spec', 'swapRows_spec', 'scaleCol_spec', 'col_step_fun',
-                                    'colStep_spec', 'luLoop_inv', 'luLoop_full', 'lu_factors', 'lu_det')]
-FILES = ['Model/LinAlg.lean', 'Props/C19.lean', 'Props/C19Loop.lean']
+                                    'colStep_spec', 'luLoop_inv', 'luLoop_full', 'lu_factors', 'lu_det',
+                                    'fwdCol_spec', 'backCol_spec', 'solveCols_spec', 'colSolved_solves', 'mldivide_solves', 'minverse_inverts', 'ztoyn_relation')]
+FILES = ['Model/LinAlg.lean', 'Props/C19.lean', 'Props/C19Loop.lean', 'Props/C19Solve.lean']
 LD = np.clongdouble
 
 
@@ -85,7 +86,7 @@ def run(chk):
     rng = random.Random(chk.seed * 104729 + 19)
     broken = []
     if THEOREMS:
-        c15.proof_side(chk, ['Libvna.Props.C19', 'Libvna.Props.C19Loop'], THEOREMS, FILES, broken)
+        c15.proof_side(chk, ['Libvna.Props.C19', 'Libvna.Props.C19Loop', 'Libvna.Props.C19Solve'], THEOREMS, FILES, broken)
     chk.trusted += ['Props/C19.lean is partial: the step from the imperative loops to the recurrences is tied by correspondence only',
                     'backward stability / rounding: measured (row-wise relative residual in extended precision), not proved']
     chk.checker_cmd = 'cd lean && lake build Libvna.Props.C19 && #print axioms'
